@@ -41,9 +41,12 @@ pub fn generate(profile: &str, tier: Tier, seed: u64) -> Scenario {
         "C04" => Scenario::F(f::generate(&mut rng, tier)),
         "C04-encfail" => Scenario::F(f::generate_encfail(&mut rng, tier)),
         "C04-stock" => Scenario::F(f::generate_stock(&mut rng, tier)),
+        "C04-quota" => Scenario::F(f::generate_quota(&mut rng, tier)),
         "C05" | "C06" | "C06-fault" | "C17-fault" | "C16-fault" | "C05-fault" | "C16" | "C16-huge" | "C17" | "C08" | "C08-obst" => Scenario::R(r::generate(&mut rng, tier, profile)),
         "C05-encfail" => Scenario::R(r::generate_encfail(&mut rng, tier, "C05")),
         "C06-encfail" => Scenario::R(r::generate_encfail(&mut rng, tier, "C06")),
+        "C17-encfail" => Scenario::R(r::generate_encfail(&mut rng, tier, "C17")),
+        "C16-encfail" => Scenario::R(r::generate_encfail(&mut rng, tier, "C16")),
         "C07-obst" => Scenario::R0(r0::generate_obst(&mut rng, tier)),
         "C07" | "C07-fault" => Scenario::R0(r0::generate(&mut rng, tier)),
         "C02" => Scenario::G(g::generate(&mut rng, tier)),
